@@ -146,3 +146,40 @@ class RefPOMDPArrays:
                                 nxt.append(nb)
             frontier = nxt
         return out
+
+
+# ---------------------------------------------------------------------------------------------
+# finite-state controllers (episodic: entering an absorbing state ends the episode, value 0)
+# ---------------------------------------------------------------------------------------------
+def fsc_value_linear(arr, act, obs):
+    """V[n, s] by solving the cross-product linear system. act[n,a], obs[n,a,o,m]."""
+    N = act.shape[0]
+    n = arr.n
+    # masked dynamics: arr.T / arr.SR already have absorbing rows zeroed
+    M = np.einsum("na,sat,ato,naom->nsmt", act, arr.T, arr.O, obs).reshape(N * n, N * n)
+    c = (act @ arr.SR.T).reshape(N * n)
+    V = np.linalg.solve(np.eye(N * n) - arr.gamma * M, c)
+    return V.reshape(N, n)
+
+
+def fsc_value_iterative(arr, act, obs, iters=5000):
+    """the same quantity by iterating the evaluation operator (independent of the linear solve)"""
+    N = act.shape[0]
+    V = np.zeros((N, arr.n))
+    for _ in range(iters):
+        fut = np.einsum("sat,ato,naom,mt->nsa", arr.T, arr.O, obs, V)
+        newV = np.einsum("na,nsa->ns", act, arr.SR[None, :, :] + arr.gamma * fut)
+        if np.max(np.abs(newV - V)) < 1e-14:
+            V = newV
+            break
+        V = newV
+    return V
+
+
+def fsc_history_action_prob(act, obs, init, hist):
+    """probability the controller DEFINES for the action sequence of hist = [(a0,o0),(a1,o1),...]
+    given the observations (hidden-node forward algorithm)."""
+    f = np.array(init, dtype=float)
+    for a, o in hist:
+        f = (f * act[:, a]) @ obs[:, a, o, :]
+    return float(f.sum())
